@@ -61,6 +61,19 @@ def gen_table(rng):
         row["cells"] = [cell(i, j) for j in range(ncols)]
     spec["title"] = rng.choice([None, None, "TTT", "TITLE TITLE TITLE"])
     spec["caption"] = rng.choice([None, None, "CCC"])
+    if rng.random() < 0.3:
+        # a table min_width within a few cells of the table's natural width: the boundary of the "pad up to
+        # min_width" branch of the width solver
+        _, pr_, _, pl_ = SP.unpack_pad(spec["padding"])
+        total = 0
+        for j, col in enumerate(spec["columns"]):
+            cells_ = [col["header"], col["footer"]] + [r["cells"][j] for r in spec["rows"] if j < len(r["cells"])]
+            wmax = 1
+            for c in cells_:
+                text = c["s"] if c["k"] == "text" else c["child"]["s"]
+                wmax = max([wmax] + [cellref.width(l) for l in text.split("\n")])
+            total += wmax + pl_ + pr_
+        spec["min_width"] = max(1, total + rng.randint(-3, 9))
     return spec, owner
 
 
@@ -177,6 +190,21 @@ def wl_tables(ctx, rng, case_no):
                 ctx.violation("hidden-header-or-footer-shown", dict(wit, row=rk))
         # in-column, at most once, in order, presence
         wrapped_any = False
+        # "roomy": the available width covers every column's natural width (widest cell line + full padding) plus the
+        # borders, and no column is flexible: the solver has no reason to hand any column less than it needs, so
+        # every character must be present whatever width the column was actually given
+        def _natural(col, j):
+            cells_ = [col["header"], col["footer"]] + [r["cells"][j] for r in spec["rows"] if j < len(r["cells"])]
+            wmax = 0
+            for c in cells_:
+                if c["k"] != "text":
+                    return None
+                wmax = max([wmax] + [cellref.width(l) for l in c["s"].split("\n")])
+            return max(wmax, 1) + pl + pr
+        naturals = [_natural(col, j) for j, col in enumerate(spec["columns"])]
+        roomy = (all(n is not None for n in naturals) and not any(c["ratio"] for c in spec["columns"])
+                 and W - extra >= sum(naturals))
+        ctx.hist("roomy", "yes" if roomy else "no")
         for j, col in enumerate(spec["columns"]):
             if col["overflow"] != "fold":
                 continue
@@ -204,6 +232,15 @@ def wl_tables(ctx, rng, case_no):
                             break
                     if occ:
                         seq.append(occ[0])
+                    elif cellref.char_width(ch) == 0:
+                        # a zero-width character needs no cell: a cell holding nothing else measures 0 and may be given
+                        # no content width at all; its presence is not asserted (its placement, when shown, is)
+                        ctx.count("zero_width_char_absent_not_asserted")
+                    elif c["k"] == "text" and c.get("overflow") is None and roomy and col["max_width"] is None:
+                        ctx.count("mon.presence")
+                        ctx.violation("cell-character-missing-although-table-has-room-for-natural-widths:" + feats,
+                                      dict(wit, char=ch, column=j, row=rk, naturals=naturals, column_width=hi - lo))
+                        break
                     elif c["k"] == "text" and c.get("overflow") is None and content >= need:
                         ctx.count("mon.presence")
                         ctx.violation("cell-character-missing-although-column-has-room:" + feats,
